@@ -34,7 +34,7 @@ META = {
 
 
 META['explanation'] += ' Rounds 4-5: ' + 'R3 also: the time part of a 12-character value is checked in every month. R5 RD8 decided by constant propagation for values with 0-3 hyphens and per-half oracles.'
-META['technique'] += '; conditional constant propagation over the CFG on finite, complete input domains (DESIGN.md 10.4.1)'
+META['technique'] = META.get('technique', 'static analysis: AST/CFG rules over /repo source + shipped XML data') + '; conditional constant propagation over the CFG on finite, complete input domains (DESIGN.md 10.4.1)'
 
 BASIC = 'ABCDEFGHIJKLMNOPQRSTUVWXYZ0123456789!"&\'()*+,-./:;?= '
 EXT_ONLY = 'abcdefghijklmnopqrstuvwxyz%~@[]_{}\\|<>#$'
